@@ -754,10 +754,18 @@ class QueryObjectDescriptor(CanBehaveLikeAVariable[T], ABC):
 
     def _inform_selected_variables_that_they_should_be_inferred_(self):
         if self.rule_mode and self._child_ and self._child_ is self._conditions_root_:
+            concluded_on = [conclusion.var._var_ for conclusion in
+                            [*self._child_._conclusion_, *self._child_._conclusions_of_all_descendants_]]
             for selected_variable in self.selected_variables:
-                if not selected_variable._is_inferred_:
-                    selected_variable._is_inferred_ = True
-                    self._variables_inferred_for_this_evaluation_.append(selected_variable)
+                if not isinstance(selected_variable, Variable) or selected_variable._is_inferred_:
+                    # e.g. a flattened expression that is selected next to the inferred variable
+                    continue
+                supplied_domain = selected_variable._domain_source_ and not selected_variable._domain_is_the_registry_
+                if supplied_domain and not any(selected_variable is var for var in concluded_on):
+                    # selected next to the inferred variable, it keeps ranging over its domain
+                    continue
+                selected_variable._is_inferred_ = True
+                self._variables_inferred_for_this_evaluation_.append(selected_variable)
 
     def _reset_only_my_cache_(self) -> None:
         super()._reset_only_my_cache_()
